@@ -483,6 +483,86 @@ SCHED_LEMMAS = ["SCHED_established", "SCHED_preserved_while_capacity", "fires_ex
 # ------------------------------------------------------------------------------ native monitor (replay)
 
 def native_rar_monitor(vals):
+    try:
+        m = _native_rar_ode(vals)
+        if m:
+            return m
+    except Exception:
+        pass
+    try:
+        return _native_rar_nonstatio(vals)
+    except Exception:
+        return None
+
+
+def _native_rar_nonstatio(vals):
+    """the real trigger_rar loop on a real non-stationary generator with nt_start != n_start, sel_t != sel_x and a space
+    store that fills first; schedule, capacity (both stores), counts and frames are observed"""
+    import numpy as np, jax, warnings
+    import jax.numpy as jnp
+    import equinox as eqx
+    from jinns.solver._rar import init_rar, trigger_rar
+    from jinns.data._DataGenerators import CubicMeshPDENonStatio
+    from jinns.loss import LossPDENonStatio, PDENonStatio
+    from jinns.parameters import Params
+    from jinns.utils._pinn import PINN
+
+    class Dyn(PDENonStatio):
+        def equation(self, t, x, u, params):
+            return jnp.sin(9.0 * t) * jnp.cos(5.0 * x[0:1]) + x[1:2]
+
+    class M(eqx.Module):
+        w: jax.Array
+        def __call__(self, x):
+            return jnp.sum(self.w * x)[None]
+    u = PINN(mlp=M(jnp.ones(3)), slice_solution=jnp.s_[0:1], eq_type="nonstatio_PDE", input_transform=lambda i, p: i, output_transform=lambda i, o, p: o)
+    msgs = []
+    for (st_, ev, n0_, nt0_, selt_, selx_, ntot, nttot, St_, Sx_) in [(1, 2, 4, 6, 2, 3, 13, 30, 5, 6), (0, 1, 5, 3, 3, 2, 30, 10, 4, 9), (2, 1, 3, 4, 2, 7, 40, 20, 3, 8)]:
+        rp = {"start_iter": st_, "update_every": ev, "sample_size_times": St_, "selected_sample_size_times": selt_,
+              "sample_size_omega": Sx_, "selected_sample_size_omega": selx_}
+        g = CubicMeshPDENonStatio(key=jax.random.PRNGKey(1), n=ntot, nb=None, nt=nttot, omega_batch_size=2, omega_border_batch_size=None,
+                                  temporal_batch_size=2, dim=2, min_pts=(0.0, 0.0), max_pts=(1.0, 1.0), tmin=0.0, tmax=1.0,
+                                  rar_parameters=rp, n_start=n0_, nt_start=nt0_)
+        with warnings.catch_warnings():
+            warnings.simplefilter("ignore")
+            loss = LossPDENonStatio(u=u, dynamic_loss=Dyn(), params=Params(nn_params=u.params, eq_params={}))
+        params = Params(nn_params=u.params, eq_params={})
+        g, ft, ff = init_rar(g)
+        steps = 0
+        for i in range(st_ + 6 * ev + 2):
+            bt_, bx_ = np.asarray(g.times), np.asarray(g.omega)
+            at, ax_ = int((np.asarray(g.p_times) != 0).sum()), int((np.asarray(g.p_omega) != 0).sum())
+            _, _, g2 = trigger_rar(i, loss, params, g, ft, ff)
+            fired = int(g2.rar_iter_nb) > int(g.rar_iter_nb)
+            expected = i >= st_ and (i - st_) % ev == 0 and at + selt_ <= nttot and ax_ + selx_ <= ntot
+            if fired != expected:
+                msgs.append(f"non-stationary, start={st_}, every={ev}: iteration {i}: refinement {'happened' if fired else 'did not happen'} "
+                            f"(active time {at}/{nttot}, space {ax_}/{ntot}), expected {'a step' if expected else 'no step'}")
+                break
+            if fired:
+                steps += 1
+                at2, ax2 = int((np.asarray(g2.p_times) != 0).sum()), int((np.asarray(g2.p_omega) != 0).sum())
+                if (at2, ax2) != (nt0_ + steps * selt_, n0_ + steps * selx_):
+                    msgs.append(f"after {steps} step(s): active time/space = {at2}/{ax2}, expected {nt0_ + steps * selt_}/{n0_ + steps * selx_}")
+                    break
+                if not np.array_equal(np.asarray(g2.times)[:at], bt_[:at]) or not np.array_equal(np.asarray(g2.omega)[:ax_], bx_[:ax_]):
+                    msgs.append(f"iteration {i} (step {steps}): a point that was active before the step was overwritten")
+                    break
+                nt_new = np.asarray(g2.times)[at:at2]
+                nx_new = np.asarray(g2.omega)[ax_:ax2]
+                if np.any(nt_new == bt_[at:at2]) or np.any(np.all(nx_new == bx_[ax_:ax2], axis=1)):
+                    msgs.append(f"iteration {i} (step {steps}): the newly activated slots still hold their old pre-allocated content")
+                    break
+                if np.any(np.asarray(g2.omega)[ax2:] != bx_[ax2:]):
+                    msgs.append(f"iteration {i} (step {steps}): rows beyond the activated slice were written")
+                    break
+            g = g2
+        if msgs:
+            break
+    return msgs or None
+
+
+def _native_rar_ode(vals):
     """run the real trigger_rar loop on the real generators and compare with the schedule / capacity / frame clauses"""
     import numpy as np
     import jax
